@@ -41,6 +41,13 @@ def model_checks(v, tier):
                      ("mc/Fragments_norange.cfg", "Refines"), ("mc/Fragments_noremove.cfg", "HeldOnlyIncomplete")):
         rr = lib.tlc_expect_violation("Fragments.tla", cfg, PID, "mc_" + os.path.basename(cfg)[10:-4], inv)
         cov["mc_configs"].append({"cfg": cfg, "result": f"counterexample to {inv} found as expected", "distinct": rr.distinct})
+    rt = lib.tlc_expect_ok("FragmentsTimed.tla", "mc/FragmentsTimed_fixed.cfg", PID, "mc_timed")
+    cov["states"] += rt.distinct
+    cov["transitions"] += rt.generated
+    cov["mc_configs"].append({"cfg": "mc/FragmentsTimed_fixed.cfg", "distinct": rt.distinct, "generated": rt.generated,
+                              "result": "Refines, HoldsExactly, AgesAgree, CountMatchesSlots hold (expiry per sequence, ticks)"})
+    rr = lib.tlc_expect_violation("FragmentsTimed.tla", "mc/FragmentsTimed_lateheader.cfg", PID, "mc_timed_lateheader", "HoldsExactly")
+    cov["mc_configs"].append({"cfg": "mc/FragmentsTimed_lateheader.cfg", "result": "counterexample to HoldsExactly found as expected", "distinct": rr.distinct})
 
 
 def run(tier, seed):
@@ -49,6 +56,7 @@ def run(tier, seed):
     size = "thorough" if tier == "thorough" else "quick"
     traces = 0
     edges_total = 0
+    paths_total = 0
     for expire in ("all", "none"):
         r = lib.tlc("gen/Gen_Fragments.tla", f"gen/Gen_Fragments_{expire}_{size}.cfg", PID, f"gen_{expire}", workers=1)
         edges = r.printed()
@@ -72,14 +80,53 @@ def run(tier, seed):
             for o in lib.read_ndjson(op):
                 traces += 1
                 judge(v, o, mode, cfg)
+            if mode == "pair" and not cache:
+                paths_total += all_paths(v, ep, cfg, mode, 5 if tier == "thorough" else 4, f"{expire}")
+    # ---- the timed model: expiry per sequence (ticks through the guarded hook verif_backdate)
+    r = lib.tlc("gen/Gen_FragmentsTimed.tla", f"gen/Gen_FragmentsTimed_{size}.cfg", PID, "gen_timed", workers=1)
+    edges = r.printed()
+    if not edges or r.rc != 0:
+        raise lib.ToolError(f"timed edge emitter produced {len(edges)} edges rc={r.rc}")
+    ep = os.path.join(lib.outdir(PID), "edges_timed.ndjson")
+    lib.write_ndjson(ep, edges)
+    for mode, seq_map, cache in [("pair", [1, 2], False), ("mixed", [9, 4], True)]:
+        op = os.path.join(lib.outdir(PID), f"obs_timed_{mode}.ndjson")
+        cfg = {"expire": "none", "timed": True, "payload": mode, "seq_map": seq_map, "cache": cache}
+        rc, out = lib.harness(["frag-edges", ep, op, json.dumps(cfg)])
+        stats = json.loads(out.strip().splitlines()[-1])
+        if stats["reached"] != stats["states"]:
+            raise lib.ToolError(f"timed edge replay reached {stats['reached']} of {stats['states']} model states")
+        edges_total += stats["edges_taken"]
+        for o in lib.read_ndjson(op):
+            traces += 1
+            judge(v, o, mode, cfg)
+        if mode == "pair":
+            paths_total += all_paths(v, ep, cfg, mode, 7 if tier == "thorough" else 6, "timed")
     v.cov["traces_validated_against_impl"] = traces
+    v.cov["paths_walked_on_impl"] = paths_total
     v.cov["exhaustive"] = True
     v.cov["rule"] = ("every transition of the Fragments model (2 sequence ids, all arrival orders, duplicates, ids 0 and n+1, "
                      "header first/middle/last, cleanup/clear) replayed once on the real FragmentAssembler after driving it to the "
-                     "transition's source state; distinct = distinct (source state, action) pairs")
+                     "transition's source state; distinct = distinct (source state, action) pairs; the timed model (per-sequence ages, ticks through the "
+                     "guarded hook verif_backdate) the same way; in addition EVERY path of the graphs up to 4 (timed: 6) steps is driven on the real "
+                     "assembler and each step's observation compared with the access-path observation of the same model edge")
     v.assumptions += ["TLC (explicit-state) and the CommunityModules Json module", "harness/src/edges.rs + frag.rs (projection via guarded hook verif_snapshot)",
                       "tokens <<seq,id>> stand for arbitrary payloads: two payload maps (distinct 2-byte pieces; lengths 0/1/1000)"]
     return v.finish()
+
+
+def all_paths(v, ep, cfg, mode, depth, tag):
+    """every path of the model graph up to `depth` steps driven on the real assembler; the steps whose observation differs
+    from the access-path replay of the same model edge (already judged) come back and are judged like any observation"""
+    op = os.path.join(lib.outdir(PID), f"paths_{tag}.ndjson")
+    rc, out = lib.harness(["frag-paths", ep, op, json.dumps(cfg), str(depth)])
+    stats = json.loads(out.strip().splitlines()[-1])
+    for o in lib.read_ndjson(op):
+        nv = len(v.violations)
+        judge(v, o, mode, cfg)
+        if len(v.violations) == nv:
+            v.add_drift("the real assembler's observable state depends on the path taken to a model state", {"path": o["path"], "act": o["act"]})
+    return stats["paths"]
 
 
 def judge(v, o, mode, cfg):
@@ -123,9 +170,17 @@ def judge(v, o, mode, cfg):
         if info["bytes"] != exp_bytes:
             c = dict(case); c.update({"bytes_held": info["bytes"], "expected": exp_bytes})
             v.violation("bytes held differ from the pieces held", c)
+        if cfg.get("timed") and held != agot:
+            c = dict(case); c.update({"held_ids": sorted(held), "ids_of_the_incomplete_unexpired_sequence": sorted(agot)})
+            v.violation("assembler lost pieces of a sequence that is neither complete nor expired", c)
         impl_held = set(mt[ms - 1]["slots"]) | set(mt[ms - 1]["pend"])
         if held != impl_held:
             v.add_drift("held ids differ from the implementation layer of the spec", case)
+    if cfg.get("timed"):
+        for i, ms_ in enumerate(mt):
+            if ms_["agot"] and str(i + 1) not in seqs:
+                c = dict(case); c.update({"sequence": i + 1, "ids_of_the_incomplete_unexpired_sequence": ms_["agot"]})
+                v.violation("assembler lost a sequence that is neither complete nor expired", c)
     # pending_count is compared with the implementation layer only as drift
     model_present = sum(1 for s in mt if s["present"])
     if o["obs_after"]["pending_count"] != model_present:
